@@ -25,6 +25,8 @@ Clause decided: the enumeration helper treats the sign of the step.
  The same forms decide a ``range(start, E, step)`` whose end is computed from a
  trip count (R1): ``E`` must be ``start + step * floor((stop - start + step) /
  step)`` for *all* integers, including empty loops.
+Not decided: what simplify() and the evaluation mapper later do to these formulas
+(C08/C09), and which bounds the consumers pass in (C31, C32).
 """
 import ast
 
